@@ -298,3 +298,8 @@ def run(tier):
                   "samples": [{"history": histories[len(histories) // 2]}, {"scratch_events": traces[0]["events"] if traces else []}], "exhaustive": False}
     v.assumptions = ["the binary's stdout is compared byte for byte with the library rendering using the same file name", "the wasm entry point itself is not built; its pipeline (wasm/src/lib.rs) is replicated in-process"]
     return v.finish()
+
+
+def replay(path):
+    import replaytool
+    return replaytool.replay("C14", path)
